@@ -124,6 +124,7 @@ theorem rejected_changes_nothing (hu : n.upd = u :: us) (ht : n.target â‰  "")
   cases he with
   | rejected r t' _ h1 h2 _ => exact âŸ¨h1, h2, rflâŸ©
   | replaced => exact absurd rfl hr
+  | suppressed => exact absurd rfl hr
   | added => exact absurd rfl hr
   | panicOld => exact absurd rfl hp
 
@@ -136,7 +137,10 @@ theorem accepted_is_stored (hi : TInv t) (hu : n.upd = u :: us) (ht : n.target â
   generalize Target.gnmiUpdate1 cfg now t n = r at he hr
   cases he with
   | rejected r t' h => rcases h with rfl | rfl | rfl <;> cases hr
-  | replaced t' ev old _ hl _ h1 =>
+  | replaced t' old _ hl _ h1 =>
+    show lookup t'.tree _ = _
+    rw [h1]; exact lookup_setLeaf_same hi.unique hl
+  | suppressed t' old _ _ _ hl _ h1 =>
     show lookup t'.tree _ = _
     rw [h1]; exact lookup_setLeaf_same hi.unique hl
   | added t' _ _ ha => exact lookup_add_same ha
